@@ -81,57 +81,57 @@ type sample struct {
 }
 
 var samples = map[string]sample{
-	"create":             {vals: map[string]string{"inFileJSON": "create.json"}},
-	"trim":               {flags: []string{"-p", "1"}},
-	"collect":            {flags: []string{"-p", "1"}},
-	"pages insert":       {flags: []string{"-p", "1"}},
-	"pages remove":       {flags: []string{"-p", "1"}},
-	"rotate":             {vals: map[string]string{"rotation": "90"}},
-	"nup":                {vals: map[string]string{"n": "2"}},
-	"grid":               {vals: map[string]string{"m": "1", "n": "2"}},
-	"booklet":            {vals: map[string]string{"n": "2"}},
-	"resize":             {vals: map[string]string{"description": "sc:.5"}},
-	"poster":             {vals: map[string]string{"description": "f:A6"}},
-	"ndown":              {vals: map[string]string{"n": "2"}},
-	"cut":                {vals: map[string]string{"description": "hor:.5"}},
-	"crop":               {vals: map[string]string{"description": "[0 0 100 100]"}},
-	"zoom":               {vals: map[string]string{"description": "factor:.5"}},
-	"boxes add":          {vals: map[string]string{"description": "crop:[0 0 100 100]"}},
-	"boxes remove":       {vals: map[string]string{"boxTypes": "crop"}, in: "boxed.pdf"},
-	"watermark add":      {vals: map[string]string{"string": "Draft", "description": "pos:c"}},
-	"watermark update":   {vals: map[string]string{"string": "Draft2", "description": "pos:c"}, in: "wm.pdf"},
-	"watermark remove":   {in: "wm.pdf"},
-	"stamp add":          {vals: map[string]string{"string": "Draft", "description": "pos:c"}},
-	"stamp update":       {vals: map[string]string{"string": "Draft2", "description": "pos:c"}, in: "stamped.pdf"},
-	"stamp remove":       {in: "stamped.pdf"},
-	"annotations remove": {in: "annot.pdf"},
-	"bookmarks import":   {flags: []string{"-r"}, vals: map[string]string{"inFileJSON": "bm.json"}},
-	"pagemode set":       {vals: map[string]string{"value": "UseOutlines"}},
-	"pagelayout set":     {vals: map[string]string{"value": "TwoColumnLeft"}},
-	"viewerpref set":     {vals: map[string]string{"inFileJSON": "vp.json"}},
-	"import":             {vals: map[string]string{"imageFile": "a.png"}},
-	"images extract":     {in: "img.pdf"},
-	"images update":      {vals: map[string]string{"imageFile": "img_1_Im0.png"}, in: "img.pdf"},
+	"create":              {vals: map[string]string{"inFileJSON": "create.json"}},
+	"trim":                {flags: []string{"-p", "1"}},
+	"collect":             {flags: []string{"-p", "1"}},
+	"pages insert":        {flags: []string{"-p", "1"}},
+	"pages remove":        {flags: []string{"-p", "1"}},
+	"rotate":              {vals: map[string]string{"rotation": "90"}},
+	"nup":                 {vals: map[string]string{"n": "2"}},
+	"grid":                {vals: map[string]string{"m": "1", "n": "2"}},
+	"booklet":             {vals: map[string]string{"n": "2"}},
+	"resize":              {vals: map[string]string{"description": "sc:.5"}},
+	"poster":              {vals: map[string]string{"description": "f:A6"}},
+	"ndown":               {vals: map[string]string{"n": "2"}},
+	"cut":                 {vals: map[string]string{"description": "hor:.5"}},
+	"crop":                {vals: map[string]string{"description": "[0 0 100 100]"}},
+	"zoom":                {vals: map[string]string{"description": "factor:.5"}},
+	"boxes add":           {vals: map[string]string{"description": "crop:[0 0 100 100]"}},
+	"boxes remove":        {vals: map[string]string{"boxTypes": "crop"}, in: "boxed.pdf"},
+	"watermark add":       {vals: map[string]string{"string": "Draft", "description": "pos:c"}},
+	"watermark update":    {vals: map[string]string{"string": "Draft2", "description": "pos:c"}, in: "wm.pdf"},
+	"watermark remove":    {in: "wm.pdf"},
+	"stamp add":           {vals: map[string]string{"string": "Draft", "description": "pos:c"}},
+	"stamp update":        {vals: map[string]string{"string": "Draft2", "description": "pos:c"}, in: "stamped.pdf"},
+	"stamp remove":        {in: "stamped.pdf"},
+	"annotations remove":  {in: "annot.pdf"},
+	"bookmarks import":    {flags: []string{"-r"}, vals: map[string]string{"inFileJSON": "bm.json"}},
+	"pagemode set":        {vals: map[string]string{"value": "UseOutlines"}},
+	"pagelayout set":      {vals: map[string]string{"value": "TwoColumnLeft"}},
+	"viewerpref set":      {vals: map[string]string{"inFileJSON": "vp.json"}},
+	"import":              {vals: map[string]string{"imageFile": "a.png"}},
+	"images extract":      {in: "img.pdf"},
+	"images update":       {vals: map[string]string{"imageFile": "img_1_Im0.png"}, in: "img.pdf"},
 	"attachments extract": {in: "att.pdf"},
-	"portfolio extract":  {in: "port.pdf"},
-	"keywords add":       {vals: map[string]string{"keyword": "kw2"}},
-	"keywords remove":    {in: "kw.pdf"},
-	"properties add":     {vals: map[string]string{"nameValuePair": "k2 = v2"}},
-	"properties remove":  {in: "prop.pdf"},
-	"extract":            {flags: []string{"-m", "page"}},
-	"form remove":        {vals: map[string]string{"fieldID": "llfirstName"}, in: "form.pdf"},
-	"form lock":          {in: "form.pdf"},
-	"form unlock":        {in: "form.pdf"},
-	"form reset":         {in: "form.pdf"},
-	"form export":        {in: "form.pdf"},
-	"form fill":          {vals: map[string]string{"inFileJSON": "fill.json"}, in: "form.pdf"},
-	"form multifill":     {vals: map[string]string{"inFileData": "fill.json"}, in: "form.pdf"},
-	"encrypt":            {flags: []string{"--opw", "o", "--upw", "u"}},
-	"decrypt":            {flags: []string{"--opw", "o", "--upw", "u"}, in: "enc.pdf"},
-	"changeupw":          {flags: []string{"--opw", "o"}, vals: map[string]string{"upwOld": "u", "upwNew": "u2"}, in: "enc.pdf"},
-	"changeopw":          {flags: []string{"--upw", "u"}, vals: map[string]string{"opwOld": "o", "opwNew": "o2"}, in: "enc.pdf"},
-	"permissions set":    {flags: []string{"--opw", "o", "--upw", "u", "--perm", "all"}, in: "enc.pdf"},
-	"signatures remove":  {downstreamUnavailable: true},
+	"portfolio extract":   {in: "port.pdf"},
+	"keywords add":        {vals: map[string]string{"keyword": "kw2"}},
+	"keywords remove":     {in: "kw.pdf"},
+	"properties add":      {vals: map[string]string{"nameValuePair": "k2 = v2"}},
+	"properties remove":   {in: "prop.pdf"},
+	"extract":             {flags: []string{"-m", "page"}},
+	"form remove":         {vals: map[string]string{"fieldID": "llfirstName"}, in: "form.pdf"},
+	"form lock":           {in: "form.pdf"},
+	"form unlock":         {in: "form.pdf"},
+	"form reset":          {in: "form.pdf"},
+	"form export":         {in: "form.pdf"},
+	"form fill":           {vals: map[string]string{"inFileJSON": "fill.json"}, in: "form.pdf"},
+	"form multifill":      {vals: map[string]string{"inFileData": "fill.json"}, in: "form.pdf"},
+	"encrypt":             {flags: []string{"--opw", "o", "--upw", "u"}},
+	"decrypt":             {flags: []string{"--opw", "o", "--upw", "u"}, in: "enc.pdf"},
+	"changeupw":           {flags: []string{"--opw", "o"}, vals: map[string]string{"upwOld": "u", "upwNew": "u2"}, in: "enc.pdf"},
+	"changeopw":           {flags: []string{"--upw", "u"}, vals: map[string]string{"opwOld": "o", "opwNew": "o2"}, in: "enc.pdf"},
+	"permissions set":     {flags: []string{"--opw", "o", "--upw", "u", "--perm", "all"}, in: "enc.pdf"},
+	"signatures remove":   {downstreamUnavailable: true},
 }
 
 // side files a sample value refers to (copied from the fixture dir into the case dir)
@@ -257,7 +257,7 @@ func must(err error, what string) {
 
 // wire encoding of the model's oname / pstate (see ocaml/C04_glue.ml)
 const (
-	nNone, nDash, nNamed                                  = "0", "1", "2"
+	nNone, nDash, nNamed                                 = "0", "1", "2"
 	sAbsent, sRegFile, sEmptyDir, sNonEmptyDir, sStatErr = "0", "1", "2", "3", "4"
 )
 
@@ -607,7 +607,8 @@ func main() {
 	os.RemoveAll(work)
 	must(os.MkdirAll(work, 0o755), "scratch dir")
 	defer os.RemoveAll(work)
-	cleanup := func() { os.RemoveAll(work) }
+	cleanup := func() { os.RemoveAll(work); os.Remove("/tmp/c04-scratch") }
+	defer cleanup()
 
 	// the binary of the tree under test
 	bin = filepath.Join(work, "pdfcpu")
